@@ -503,7 +503,7 @@ def rule_classify(ctx):
                     k = [n for n in p if n in ev]
                     skipped = [n for n in p if n.kind == "continue"]
                     ok_skip = bool(skipped) and all(_none_guarded(c, s) for s in skipped)
-                    good = (len(k) == 1 and not skipped) or (len(k) == 0 and ok_skip)
+                    good = len(k) == 1 or (len(k) == 0 and ok_skip)   # a `continue` after the single resolution is the guard-clause form
                     if not good:
                         ctx.ob(R, fi, la, False,
                                f"path {[n.lineno for n in p if n.kind in ('test', 'call', 'continue')]} resolves the batch {len(k)} times", text=f"loop@{unparse(la.iter)}")
